@@ -8,6 +8,7 @@ import (
 	"path"
 	"path/filepath"
 	"strings"
+	"syscall"
 
 	"github.com/johannesboyne/gofakes3"
 	"github.com/spf13/afero"
@@ -159,4 +160,12 @@ func FsPath(path string, flags FsFlags) (afero.Fs, error) {
 	}
 
 	return afero.NewBasePathFs(afero.NewOsFs(), path), nil
+}
+
+// isNotExist reports whether err says that the path does not exist. Besides
+// os.IsNotExist that is the case when a parent of the path is a file rather
+// than a directory (ENOTDIR on a real file system): while the object "a"
+// exists, the key "a/b" does not.
+func isNotExist(err error) bool {
+	return os.IsNotExist(err) || errors.Is(err, syscall.ENOTDIR)
 }
